@@ -68,11 +68,10 @@ End Assoc.
 
 Definition mem_name (n : name) (l : list name) : bool := existsb (name_eqb n) l.
 
-(* Python str.upper() == 'INBOX' (Mailbox.__init__, dict get_mailbox): the
-   characters whose upper() is one of I N B O X are the two ASCII cases and
-   U+0131 (dotless i) for I; the sweep in harness/props/C11.py pins this. *)
-Definition upper_is (c u : N) : bool :=
-  ((c =? u) || (c =? u + 32) || ((u =? 73) && (c =? 305)))%N.
+(* name.isascii() and name.upper() == 'INBOX' (Mailbox.__init__, dict
+   get_mailbox): the two ASCII cases of each letter.  (str.upper() alone also
+   maps U+0131 to 'I'; the isascii() guard of the fixed code excludes it.) *)
+Definition upper_is (c u : N) : bool := ((c =? u) || (c =? u + 32))%N.
 
 Fixpoint upper_matches (s u : list N) : bool :=
   match s, u with
